@@ -20,25 +20,14 @@
 
 package internal
 
-import (
-	"bytes"
-	"strconv"
-)
+import "strconv"
 
 // UnquoteSingleQuoted unquotes a slice of bytes representing a single quoted
 // string.
 //
 //	UnquoteSingleQuoted([]byte("'foo'")) == "foo"
 func UnquoteSingleQuoted(in []byte) (string, error) {
-	out := string(swapQuotes(unescapeQuotes(in, '"')))
-	str, err := strconv.Unquote(out)
-	if err != nil {
-		return str, err
-	}
-
-	// s/'/"/g, s/"/'/g
-	out = string(swapQuotes([]byte(str)))
-	return out, nil
+	return unquote(in, '\'')
 }
 
 // UnquoteDoubleQuoted unquotes a slice of bytes representing a double quoted
@@ -46,29 +35,40 @@ func UnquoteSingleQuoted(in []byte) (string, error) {
 //
 //	UnquoteDoubleQuoted([]byte("\"foo\"")) == "foo"
 func UnquoteDoubleQuoted(in []byte) (string, error) {
-	return strconv.Unquote(string(unescapeQuotes(in, '\'')))
+	return unquote(in, '"')
 }
 
-// unescapeQuotes unescapes all occurences of a quote character in a string.
+// unquote unquotes a string literal delimited by the given quote character.
 //
-//	unescapeQuotes([]byte{'\\', '"'}, '"') == []byte{'"'}
-//	unescapeQuotes([]byte{'\\', '\''}, '\'') == []byte{'\''}
-func unescapeQuotes(in []byte, quote byte) []byte {
-	return bytes.ReplaceAll(in, []byte{'\\', quote}, []byte{quote})
-}
-
-// swapQuotes replaces all single quotes with double quotes and all double
-// quotes with single quotes.
-func swapQuotes(in []byte) []byte {
-	// s/'/"/g, s/"/'/g
-	out := make([]byte, len(in))
-	for i, c := range in {
-		if c == '"' {
-			c = '\''
-		} else if c == '\'' {
-			c = '"'
-		}
-		out[i] = c
+// The literal is rewritten, one escape sequence at a time, into a Go double
+// quoted string literal which is then unquoted: the escaped form of the
+// other kind of quote is not valid in a Go literal, and unescaped double
+// quotes inside a single quoted literal need to be escaped.
+func unquote(in []byte, quote byte) (string, error) {
+	if len(in) < 2 || in[0] != quote || in[len(in)-1] != quote {
+		return "", strconv.ErrSyntax
 	}
-	return out
+
+	body := in[1 : len(in)-1]
+	out := make([]byte, 0, len(in)+2)
+	out = append(out, '"')
+	for i := 0; i < len(body); i++ {
+		c := body[i]
+		switch {
+		case c == '\\' && i+1 < len(body):
+			i++
+			if body[i] == '\'' {
+				// \' is not valid inside a Go double quoted string.
+				out = append(out, '\'')
+			} else {
+				out = append(out, '\\', body[i])
+			}
+		case c == '"':
+			out = append(out, '\\', '"')
+		default:
+			out = append(out, c)
+		}
+	}
+	out = append(out, '"')
+	return strconv.Unquote(string(out))
 }
